@@ -341,6 +341,8 @@ void t_formula(FuzzedDataProvider& f) {
   size_t depth = 0, maxDepth = 0; for (char ch : s) { if (ch == '(') maxDepth = max(maxDepth, ++depth); else if (ch == ')' && depth) --depth; }
   string stripped = TextTools::removeWhiteSpaces(s);
   if (stripped.empty() && known("C16-formula-empty")) return;
+  // known finding: the recursive-descent parser uses stack frames in proportion to the number of operators of the formula
+  { size_t nops = 0; for (char ch : s) if (ch == '+' || ch == '-' || ch == '*' || ch == '/' || ch == '(') ++nops; if (nops > 400 && known("C16-formula-recursion-depth")) return; }
   try {
     map<string, shared_ptr<FunctionInterface>> fn; fn["f"] = make_shared<IdFunction>();
     ComputationTree t(s, fn); nt();
